@@ -259,6 +259,21 @@ def mechs_cfg(mech):
 # --------------------------------------------------------------------------------------------------
 # families of stream 2
 # --------------------------------------------------------------------------------------------------
+def fam_regress(rng, thorough):
+    """minimal scenarios of the defects this stream found (fixes/C12-2, C12-4, C12-5, C12-6)"""
+    j, pw = "jid " + H(JIDS["full"]), "pass " + H("secret")
+    full = feed(script(tls=False, sm=True), runs=1)
+    return [
+        Sc(["conn", j, pw, "connect client", "run", rx("h1"), "run", rx(features(False, ["SCRAM-SHA-1"])), "run", "run", "rxclose", "run", "release"],
+           "regress:C12-2:scram-context-pending-at-teardown"),
+        Sc(["conn", j, pw, "connect client", "run"] + full + ["rxclose", "run", "connect client", "run", "rxclose", "run", "release"],
+           "regress:C12-4:parked-bound-jid-overwritten"),
+        Sc(["conn", "hdef 6 g 10 1", "hadd 6", "release"], "regress:C12-5:global-timed-handler-at-ctx-free"),
+        Sc(["conn", j, pw, "restore 1a000000001a000000001a000000007a00000004534d49449a00000000ba00000000", "connect client", "run"] + full + ["rxclose", "run", "release"],
+           "regress:C12-6:restored-id-overwritten-by-enabled"),
+    ]
+
+
 def fam_stages(rng, thorough):
     """every stage of every kind of negotiation x every teardown (x reconnect afterwards)"""
     S = []
@@ -333,7 +348,7 @@ def sends(rng, k):
 def fam_handover(rng, thorough):
     """SM state moved between connection objects"""
     S = []
-    n_rand = 1500 if thorough else 60
+    n_rand = 3000 if thorough else 60
     plans = ["resume", "free", "never-set", "refused-has-state", "refused-connected", "get-while-connected", "release0-first", "release1-unconnected",
              "set-back", "get-twice", "resume-failed", "resume-nosm", "resume-wrongid", "set-then-get-again"]
     jobs = [(p, k, drop) for p in plans for k in (0, 2) for drop in ("rxreset", "rxclose")]
@@ -611,6 +626,7 @@ def run_stream2(chk, exe, stats):
     fams = []
     corpus = [Sc(s.sim_line().split(";"), s.label) for s in negsim.corpus_scenarios()]
     fams.append(("corpus", corpus))
+    fams.append(("regress", fam_regress(rng, thorough)))
     fams.append(("scram-pending", fam_scram(rng, thorough)))
     fams.append(("handover", fam_handover(rng, thorough)))
     fams.append(("clone", fam_clone(rng, thorough)))
@@ -618,7 +634,7 @@ def run_stream2(chk, exe, stats):
     fams.append(("misc", fam_misc(rng, thorough)))
     p1 = fam_restore_phase1(rng, thorough)
     fams.append(("restore-capture", p1))
-    nrand = 20000 if thorough else 400
+    nrand = 30000 if thorough else 400
     fams.append(("random", [Sc(negsim.gen_scenario(rng).sim_line().split(";"), "gen") for _ in range(nrand)]))
 
     def evaluate(name, scs):
@@ -632,7 +648,7 @@ def run_stream2(chk, exe, stats):
                 chk.traces_validated += 1
                 if tr.count(" ") > 14:
                     chk.nontrivial.add(hash(tr))
-            an = anomalies(tr) if name != "random" and name != "corpus" else []
+            an = anomalies(tr) if name not in ("random", "corpus") else []
             if an and name not in ("random", "corpus"):
                 stats["harness_anomalies"] = stats.get("harness_anomalies", 0) + 1
                 stats.setdefault("harness_anomaly_examples", [])
@@ -661,7 +677,7 @@ def run_stream2(chk, exe, stats):
         blobs = blobs[:: max(1, len(blobs) // 6)]
     stats["restore_blobs"] = len(blobs)
     evaluate("restore", fam_restore_phase2(rng, thorough, blobs))
-    for name, scs in fams[1:5]:
+    for name, scs in fams[2:6]:
         k = len(scs) // 2
         if scs:
             chk.sample({"stream": "conn", "label": scs[k].label, "scenario": scs[k].line()[:300], "trace_end": (outs[name][k] or "")[-160:]}, limit=12)
@@ -671,11 +687,20 @@ def run_stream2(chk, exe, stats):
     for f in failing:
         by_sig.setdefault(f[0], {}).setdefault(f[1], []).append(f)
     stats["failing_by_signature"] = {sig: {fam: len(v) for fam, v in d.items()} for sig, d in by_sig.items()}
-    for sig in sorted(by_sig):
+
+    def sig_order(sig):
+        m = re.fullmatch(r"live=(\d+)", sig)
+        return (1, int(m.group(1)), sig) if m else (0, 0, sig)      # crashes / misuse first, then the smallest leaks
+
+    total = 0
+    for sig in sorted(by_sig, key=sig_order):
+        if total >= 24:
+            stats["signatures_not_reported"] = stats.get("signatures_not_reported", 0) + 1
+            continue
         d = by_sig[sig]
         for v in d.values():
             v.sort(key=lambda f: (f[2], len(f[3])))
-        order = sorted(d, key=lambda fam: (fam in ("random", "stages"), fam))
+        order = sorted(d, key=lambda fam: (fam != "regress", fam in ("random", "stages"), fam))
         picked = []
         rnd = 0
         while len(picked) < rep.per_sig and any(len(d[fam]) > rnd for fam in order):
@@ -684,6 +709,7 @@ def run_stream2(chk, exe, stats):
                     picked.append(d[fam][rnd])
             rnd += 1
         for (sg, fam, _, ln, sc, what) in picked:
+            total += 1
             rep.report(ln, sc.label, sg, what, want=sc.want, extra={"family": fam})
 
 
@@ -738,19 +764,21 @@ def run_stream3(chk, exe, stats):
         # number of allocations after the first `conn`: injected failures beyond it never fire (trace = baseline).
         # A failure that is tolerated silently also leaves the trace unchanged, so the end is a whole block of CH
         # consecutive n without any change.
+        # thorough tier: every n; quick tier: every third n (random phase)
+        step = 1 if thorough else 3
         results = {}
-        n0 = 1
+        n0 = 1 + (rng.randrange(step) if step > 1 else 0)
         while n0 < 20000:
-            ns = list(range(n0, n0 + CH))
+            ns = list(range(n0, n0 + CH, step))
             out = run_each(exe, [inject(cmds, first_conn, n) for n in ns])
             for n, o in zip(ns, out):
                 results[n] = o
-            n0 += CH
+            n0 = ns[-1] + step
             if all(o == base for o in out):
                 break
         N = max([n for n, o in results.items() if o != base] or [0])
-        st["allocations"] = N
-        todo = [(first_conn, n) for n in range(1, N + 1)]     # (the sweep that found N has run them all already)
+        st["allocations"] = N if thorough else "about %d" % N
+        todo = [(first_conn, n) for n in sorted(results) if n <= N]     # (the sweep that found N has run them already)
         # the same failures addressed from later points of the scenario (a sample: they are the same allocation calls)
         for pos in (first_connect, first_run):
             k = (60 if thorough else 12)
